@@ -119,6 +119,14 @@ func c10R2(c *core.Ctx, rule string) {
 		if eng.FuncID(eng.CalleeObj(&call.Call)) == idLConnEnqueue {
 			return eng.CallArgs(&call.Call)[1] == p
 		}
+		// enqueue written out in place: writer.Write(p) on the connection's own queue (the lock
+		// rule C10.R1 requires the write lock for it)
+		if eng.FuncID(eng.CalleeObj(&call.Call)) == idBufWrite {
+			a := eng.CallArgs(&call.Call)
+			if _, isW := eng.AddrOfField(a[0], "writer"); isW {
+				return a[1] == p
+			}
+		}
 		if call.Call.IsInvoke() && call.Call.Method.Name() == "Write" {
 			if _, isSock := eng.LoadOfField(call.Call.Value, "socket"); isSock {
 				return call.Call.Args[0] == p
